@@ -46,7 +46,7 @@ struct Handles : Profile {
     {
         return {"stale-rejected", "wrongkind-rejected", "never-rejected", "double-release-rejected", "close-refused-with-aids", "nested-open",
                 "upgrade-open", "foreign-rejected", "teardown", "identity-checked", "shadow-run-compared", "wrongkind-hlevel",
-                "stale-extra-call", "wrongkind-extra-call", "never-extra-call"};
+                "stale-extra-call", "wrongkind-extra-call", "never-extra-call", "aid-on-special-element"};
     }
 
     Plan generate(Rng &rng, bool thorough, uint64_t) override
@@ -122,6 +122,14 @@ struct Handles : Profile {
                     return false;
                 if (expect && ((t & ~0x4000) != expect->tag || r != expect->ref))
                     ctx.fail("alias", "alias:aid", strf("access id issued for %u/%u answers for %u/%u", expect->tag, expect->ref, t, r));
+                if (expect) {
+                    // ... and for the element of ITS file: length and first byte differ between the files
+                    uint8 b = 0;
+                    if (len != elem_len(expect->file, expect->ref))
+                        ctx.fail("alias", "alias:aid-length", strf("access id on %u/%u of file %d reports length %d, the element has %d", t, r, expect->file, (int)len, (int)elem_len(expect->file, expect->ref)));
+                    if (Hseek(id, 0, DF_START) == FAIL || Hread(id, 1, &b) != 1 || b != elem_byte(expect->file, expect->ref))
+                        ctx.fail("alias", "alias:aid-bytes", strf("access id on %u/%u of file %d reads byte %02x, the element starts with %02x", t, r, expect->file, b, elem_byte(expect->file, expect->ref)));
+                }
                 return true;
             }
             case H_VS: {
@@ -362,6 +370,8 @@ struct Handles : Profile {
         s.h.push_back(x);
         return (int)s.h.size() - 1;
     }
+    static uint8 elem_byte(int f, int ref) { return (uint8)(0x40 + 0x20 * f + ref); }
+    static int32 elem_len(int f, int ref) { return ref == 4 ? 24 + 16 * f : 8; }
     // every file gets a few objects of each interface the first time it is opened for writing
     void populate(S &s, int f, int32 fid)
     {
@@ -369,9 +379,20 @@ struct Handles : Profile {
             return;
         s.populated[f] = true;
         uint8 d[8]     = {1, 2, 3, 4, 5, 6, 7, 8};
-        for (int q = 0; q < 3; q++)
+        for (int q = 0; q < 3; q++) {
+            d[0] = elem_byte(f, q + 1); // the files hold elements of the same names with different bytes
             if (Hputelement(fid, 8800, (uint16)(1 + q), d, 8) == FAIL)
                 s.ctx.fail("setup-failed", "setup-failed:hput", "populating a file failed");
+        }
+        d[0] = 1;
+        {
+            // a linked-block element of the same name in every file, with its own length and bytes: access ids on special
+            // elements share bookkeeping per element, which must never be taken from the other file
+            std::vector<uint8> lb((size_t)elem_len(f, 4), elem_byte(f, 4));
+            int32 aid = HLcreate(fid, 8800, 4, 8, 2);
+            if (aid == FAIL || Hwrite(aid, (int32)lb.size(), lb.data()) == FAIL || Hendaccess(aid) == FAIL)
+                s.ctx.fail("setup-failed", "setup-failed:hlcreate", "populating a file failed");
+        }
         Vstart(fid);
         for (int q = 0; q < 2; q++) {
             int32 v = q;
@@ -592,8 +613,10 @@ struct Handles : Profile {
                         if (!s.populated[f])
                             done = false;
                         else if (kind == H_AID) {
-                            uint16 ref = (uint16)(1 + modn(sel, 3));
+                            uint16 ref = (uint16)(1 + modn(sel, 4));
                             int32  aid = Hstartread(fd.id, 8800, ref);
+                            if (ref == 4)
+                                ctx.probe("aid-on-special-element");
                             if (aid == FAIL)
                                 ctx.fail("acquire-failed", "acquire-failed:aid", "Hstartread of an existing element failed");
                             int idx = add(s, H_AID, aid, f, fi);
